@@ -42,12 +42,21 @@ def run(repo: Repo, chk: Check):
 
 
 def _addr(site):
-    """(device text, linear form of the address) for put db A v / get r db A."""
+    """(device text, linear form of the address) for put db A v / get r db A; a local that holds the address is followed to its
+    single definition."""
     ins = site.input_exprs
     if len(ins) < 2:
         return None
+    cfg, rd = fn_ctx(site.fn)
+    ids = live_ids(cfg, site.call)
+
+    def resolve(nm):
+        ds = rd.at(ids[0], nm.id) if ids else []
+        if len(ds) == 1 and ds[0].kind == "assign" and not ds[0].index and isinstance(ds[0].value, (ast.BinOp, ast.Constant, ast.UnaryOp)):
+            return ds[0].value
+        return None
     try:
-        return norm(ins[0]), lin(ins[1])
+        return norm(ins[0]), lin(ins[1], resolve)
     except NotLinear:
         return None
 
